@@ -19,7 +19,11 @@ sec = ['<!-- SEEDS-BEGIN -->', '## 0b. Seeded changes (independent sub-agents) a
        'properties with the instruction to use other functions and mechanisms than the first round. %d of %d kept changes are caught (one only by a thorough-tier harness, marked).' % (ncaught, len(rows)),
        'Changes of rounds 2 and 3 that the checks of that moment missed led to targeted harnesses (h_payout, h_retarget past the boundary, h_reload boundary endorsement, h_mempool_vbktie /',
        '_timely / _pair / _stale2, h_reuse, h_toy4 / h_toyfork, h_realinv, h_realbody, h_realctx, h_realrefs, the mid-fork case of h_realsp_unequal, the pruned side block of h_realfin);',
-       'the outcome column is the result AFTER those additions. C17-v1 needs two threads racing on a cold progpow epoch: outside what this technique family decides here.', '',
+       'the outcome column is the result AFTER those additions. C17-v1 needs two threads racing on a cold progpow epoch: outside what this technique family decides here.',
+       'A fourth round (12 changes for C02, C05, C08, C10, C12, C14) was used for guidance only (its changes were tried against the checks in a scratch worktree but not confirmed with the',
+       'full protocol, so they are not kept): 8 were caught as they came; 3 led to additions (VBK payload-index exactness in the real-tree harnesses, the VTB held by an unapplied fork block in',
+       '`h_realsp_unequal`, `h_mempool_vtbfork`, the re-sent known header in `h_invrev`, the un-endorsed block in the difficulty window of `h_payout`, the removal-after-save continuation of',
+       '`h_reload`) and are caught now; 2 stay out of reach: a progpow header cache keyed without the nonce (needs the progpow computation) and a stored-index read limit that only bites above 1024 VTBs in one ALT block.', '',
        '| seed | needs, to manifest | outcome (quick tier) | registered checks that stay silent |', '|---|---|---|---|'] + rows + ['', '<!-- SEEDS-END -->']
 p = V + '/DESIGN.md'
 s = open(p).read()
